@@ -253,11 +253,34 @@ Qed.
 Definition has_lits (db : list cl) (ls : list lit) : bool :=
   existsb (fun c => lits_eqb (cl_lits c) ls) db.
 
+(* a Requires clause of parent p for requirement r, with the expected literals *)
+Definition has_requires (db : list cl) (p : var) (r : req) : bool :=
+  existsb (fun c => match ck c with
+                    | KRequires p' r' _ => var_eqb p p' && req_eqb r r'
+                    | _ => false
+                    end && lits_eqb (cl_lits c) (requires_lits p r)) db.
+
+Lemma has_requires_lits db p r : has_requires db p r = true -> has_lits db (requires_lits p r) = true.
+Proof.
+  unfold has_requires, has_lits. rewrite !existsb_exists. intros [c [Hc H]].
+  apply andb_true_iff in H. exists c. split; [exact Hc | apply H].
+Qed.
+
+Lemma has_requires_clause db p r : has_requires db p r = true ->
+  exists c cands, In c db /\ ck c = KRequires p r cands /\ cl_lits c = requires_lits p r.
+Proof.
+  unfold has_requires. rewrite existsb_exists. intros [c [Hc H]].
+  apply andb_true_iff in H. destruct H as [Hk Hl]. apply lits_eqb_eq in Hl.
+  destruct (ck c) as [|p' r' cands| | | | |] eqn:Ek; try discriminate.
+  apply andb_true_iff in Hk. destruct Hk as [Hp Hr]. apply var_eqb_eq in Hp. apply req_eqb_eq in Hr.
+  subst. exists c, cands. auto.
+Qed.
+
 Definition deps_closedb (db : list cl) (p : var) (d : deps) : bool :=
   match d with
   | Unknown => match p with VSol s => has_lits db [nlit s] | _ => false end
   | Known rs cs =>
-      forallb (fun r => has_lits db (requires_lits p r)) rs &&
+      forallb (fun r => has_requires db p r) rs &&
       forallb (fun v => forallb (fun f => has_lits db [(p, false); nlit f]) (nonmatching U v)) cs
   end.
 
@@ -283,42 +306,77 @@ Proof.
   apply lits_eqb_eq in He. rewrite <- He. apply Hall. exact Hc.
 Qed.
 
+(* package-level clauses (exclusion list, lock) of an exempt solvable may be
+   falsified by the final assignment: that is the documented soft-requirement
+   exemption.  An Unknown-dependencies exclusion is never exempt. *)
+Definition exempt_cl (ex : list N) (c : cl) : bool :=
+  match ck c, cl_lits c with
+  | KExcluded _ _, [(VSol x, false)] => memN x ex && negb (is_unknown (p_deps U x))
+  | KLock _ _, [(VSol o, false); (VRoot, false)] => memN o ex
+  | _, _ => false
+  end.
+
+Definition sat_or_exempt (a : asg) (ex : list N) (c : cl) : bool :=
+  cl_true a (cl_lits c) || exempt_cl ex c.
+
+Lemma has_lits_sat_ex db ls a ex :
+  (forall c, In c db -> sat_or_exempt a ex c = true) -> has_lits db ls = true ->
+  (forall c, cl_lits c = ls -> exempt_cl ex c = false) -> cl_true a ls = true.
+Proof.
+  intros Hall H Hne. unfold has_lits in H. apply existsb_exists in H. destruct H as [c [Hc He]].
+  apply lits_eqb_eq in He. specialize (Hall c Hc). unfold sat_or_exempt in Hall.
+  rewrite (Hne c He) in Hall. rewrite orb_false_r in Hall. rewrite <- He. exact Hall.
+Qed.
+
+Lemma exempt_cl_requires ex c p r cands : ck c = KRequires p r cands -> exempt_cl ex c = false.
+Proof. unfold exempt_cl. intro E. rewrite E. reflexivity. Qed.
+
 Lemma lit_true_pos a s : lit_true a (pos s) = a (VSol s).
 Proof. unfold lit_true, pos. simpl. destruct (a (VSol s)); reflexivity. Qed.
 Lemma lit_true_nlit a s : lit_true a (nlit s) = negb (a (VSol s)).
 Proof. unfold lit_true, nlit. simpl. destruct (a (VSol s)); reflexivity. Qed.
 
-Lemma deps_closed_ok (HW : WF U) db a S p d :
-  (forall c, In c db -> cl_true a (cl_lits c) = true) ->
+Lemma deps_closed_ok (HW : WF U) db a S ex p d :
+  (forall c, In c db -> sat_or_exempt a ex c = true) ->
   (forall s, In s S <-> a (VSol s) = true) ->
   a p = true ->
+  (forall s, p = VSol s -> d = p_deps U s) ->
   deps_closedb db p d = true -> deps_ok U S d.
 Proof.
-  intros Hall HS Hp Hc. destruct d as [rs cs|]; simpl in *.
+  intros Hall HS Hp Hd Hc. destruct d as [rs cs|] eqn:Ed; simpl in *.
   - apply andb_true_iff in Hc. destruct Hc as [Hr Hcs]. rewrite forallb_forall in Hr, Hcs. split.
-    + intros r Hin. specialize (Hr r Hin). apply (has_lits_sat db _ a Hall) in Hr.
-      apply cl_true_iff in Hr. destruct Hr as [l [Hl Ht]]. simpl in Hl. destruct Hl as [Hl|Hl].
+    + intros r Hin. specialize (Hr r Hin).
+      destruct (has_requires_clause db p r Hr) as [c [cands [Hcdb [Ek El]]]].
+      pose proof (Hall c Hcdb) as Hs. unfold sat_or_exempt in Hs.
+      rewrite (exempt_cl_requires ex c p r cands Ek), orb_false_r, El in Hs.
+      apply cl_true_iff in Hs. destruct Hs as [l [Hl Ht]]. simpl in Hl. destruct Hl as [Hl|Hl].
       * subst l. unfold lit_true in Ht. simpl in Ht. rewrite Hp in Ht. discriminate.
       * apply in_map_iff in Hl. destruct Hl as [s [Hs Hin2]]. subst l.
         rewrite lit_true_pos in Ht. apply req_met_cand. exists s. split.
         -- apply (req_cands_In HW). exact Hin2.
         -- apply HS. exact Ht.
     + intros v Hin s Hs Hnm. specialize (Hcs v Hin). rewrite forallb_forall in Hcs.
-      specialize (Hcs s Hnm). apply (has_lits_sat db _ a Hall) in Hcs.
-      apply cl_true_iff in Hcs. destruct Hcs as [l [Hl Ht]]. simpl in Hl.
-      destruct Hl as [Hl|[Hl|[]]]; subst l.
-      * unfold lit_true in Ht. simpl in Ht. rewrite Hp in Ht. discriminate.
-      * rewrite lit_true_nlit in Ht. apply HS in Hs. rewrite Hs in Ht. discriminate.
+      specialize (Hcs s Hnm). apply (has_lits_sat_ex db _ a ex Hall) in Hcs.
+      * apply cl_true_iff in Hcs. destruct Hcs as [l [Hl Ht]]. simpl in Hl.
+        destruct Hl as [Hl|[Hl|[]]]; subst l.
+        -- unfold lit_true in Ht. simpl in Ht. rewrite Hp in Ht. discriminate.
+        -- rewrite lit_true_nlit in Ht. apply HS in Hs. rewrite Hs in Ht. discriminate.
+      * intros c El. unfold exempt_cl. rewrite El. unfold nlit.
+        destruct (ck c); try reflexivity; destruct p as [|? |? ?]; reflexivity.
   - destruct p as [|s|? ?]; try discriminate.
-    apply (has_lits_sat db _ a Hall) in Hc. apply cl_true_iff in Hc.
-    destruct Hc as [l [[Hl|[]] Ht]]. subst l. rewrite lit_true_nlit in Ht.
-    rewrite Hp in Ht. discriminate.
+    apply (has_lits_sat_ex db _ a ex Hall) in Hc.
+    + apply cl_true_iff in Hc. destruct Hc as [l [[Hl|[]] Ht]]. subst l. rewrite lit_true_nlit in Ht.
+      rewrite Hp in Ht. discriminate.
+    + (* an Unknown-dependencies exclusion is never exempt *)
+      intros c El. unfold exempt_cl. rewrite El. unfold nlit.
+      rewrite <- (Hd s eq_refl). simpl. rewrite andb_false_r.
+      destruct (ck c); reflexivity.
 Qed.
 
-(* E2: a total assignment that satisfies a closed clause database selects a
-   valid set *)
+(* E2: a total assignment that satisfies a closed clause database (up to the
+   package-level clauses of exempt solvables) selects a valid set *)
 Theorem E2 (HW : WF U) db a S ex :
-  (forall c, In c db -> cl_true a (cl_lits c) = true) ->
+  (forall c, In c db -> sat_or_exempt a ex c = true) ->
   (forall s, In s S <-> a (VSol s) = true) ->
   a VRoot = true ->
   closedb db S ex = true ->
@@ -328,24 +386,32 @@ Proof.
   apply andb_true_iff in Hc. destruct Hc as [Hc H1]. apply andb_true_iff in Hc.
   destruct Hc as [Hc Hpk]. apply andb_true_iff in Hc. destruct Hc as [Hr Hd].
   rewrite forallb_forall in Hd, Hpk. split; [|split; [|split]].
-  - exact (deps_closed_ok HW db a S VRoot _ Hall HS Hroot Hr).
+  - apply (deps_closed_ok HW db a S ex VRoot _ Hall HS Hroot); [intros s E; discriminate E | exact Hr].
   - intros s Hs.
-    apply (deps_closed_ok HW db a S (VSol s) (p_deps U s) Hall HS); [apply HS; exact Hs | apply Hd; exact Hs].
+    apply (deps_closed_ok HW db a S ex (VSol s) (p_deps U s) Hall HS);
+      [apply HS; exact Hs | intros s' E; inversion E; reflexivity | apply Hd; exact Hs].
   - intros s Hs Hex. specialize (Hpk s Hs). apply orb_true_iff in Hpk.
     destruct Hpk as [Hpk|Hpk]; [apply memN_In in Hpk; contradiction|].
     unfold pkg_closedb in Hpk. apply andb_true_iff in Hpk. destruct Hpk as [He Hl].
     assert (Has : a (VSol s) = true) by (apply HS; exact Hs).
+    assert (Hnex : memN s ex = false) by (apply memN_false; exact Hex).
     split.
     + intro Hin. apply memN_In in Hin. fold name in Hin. rewrite Hin in He.
-      apply (has_lits_sat db _ a Hall) in He. apply cl_true_iff in He.
-      destruct He as [l [[Hl'|[]] Ht]]. subst l. rewrite lit_true_nlit, Has in Ht. discriminate.
+      apply (has_lits_sat_ex db _ a ex Hall) in He.
+      * apply cl_true_iff in He.
+        destruct He as [l [[Hl'|[]] Ht]]. subst l. rewrite lit_true_nlit, Has in Ht. discriminate.
+      * intros c El. unfold exempt_cl. rewrite El. unfold nlit. rewrite Hnex. simpl.
+        destruct (ck c); reflexivity.
     + intros l El Hcand. fold name in El. rewrite El in Hl. apply memN_In in Hcand.
       fold name in Hcand. rewrite Hcand in Hl. simpl in Hl.
       destruct (N.eqb s l) eqn:Esl; [apply N.eqb_eq; exact Esl|]. simpl in Hl.
-      apply (has_lits_sat db _ a Hall) in Hl. apply cl_true_iff in Hl.
-      destruct Hl as [l0 [[Hl'|[Hl'|[]]] Ht]]; subst l0.
-      * rewrite lit_true_nlit, Has in Ht. discriminate.
-      * unfold lit_true in Ht. simpl in Ht. rewrite Hroot in Ht. discriminate.
+      apply (has_lits_sat_ex db _ a ex Hall) in Hl.
+      * apply cl_true_iff in Hl.
+        destruct Hl as [l0 [[Hl'|[Hl'|[]]] Ht]]; subst l0.
+        -- rewrite lit_true_nlit, Has in Ht. discriminate.
+        -- unfold lit_true in Ht. simpl in Ht. rewrite Hroot in Ht. discriminate.
+      * intros c Ec. unfold exempt_cl. rewrite Ec. unfold nlit. rewrite Hnex.
+        destruct (ck c); reflexivity.
   - apply one_per_nameb_spec. exact H1.
 Qed.
 
